@@ -13,6 +13,11 @@ extra = dict(a.split("=") for a in sys.argv[1:] if "=" in a)
 sh(["git", "-C", "/repo", "worktree", "remove", "--force", WT])
 r = sh(["git", "-C", "/repo", "worktree", "add", "--detach", WT, "HEAD"]); assert r.returncode == 0, r.stdout
 out_path = os.path.join(VERIF, "seeded", "RESULTS.json")
+# the checks rewrite evidence/<id>.json on every run: keep the evidence of the unchanged tree and put it back at the end
+import shutil
+evidence_backup = "/tmp/seedrun_evidence"
+shutil.rmtree(evidence_backup, ignore_errors=True)
+shutil.copytree(os.path.join(VERIF, "evidence"), evidence_backup)
 results = json.load(open(out_path)) if os.path.exists(out_path) else {}
 try:
     for n in names:
@@ -37,3 +42,8 @@ try:
         json.dump(results, open(out_path, "w"), indent=1)
 finally:
     sh(["git", "-C", "/repo", "worktree", "remove", "--force", WT])
+    for f in os.listdir(evidence_backup):
+        shutil.copy(os.path.join(evidence_backup, f), os.path.join(VERIF, "evidence", f))
+    shutil.rmtree(evidence_backup, ignore_errors=True)
+    # coq/Gen/*.v were regenerated from the changed trees: regenerate them from /repo
+    sh(["bash", os.path.join(VERIF, "tools", "setup.sh")])
